@@ -9,6 +9,7 @@ import (
 	"fmt"
 	"math"
 	"runtime"
+	"strings"
 	"time"
 
 	"github.com/prometheus/prometheus/promql"
@@ -173,3 +174,7 @@ func fmtErr(err error) string {
 	}
 	return fmt.Sprintf("%v", err)
 }
+
+func parserParse(q string) (parser.Expr, error) { return parser.ParseExpr(q) }
+
+func containsStr(s, sub string) bool { return strings.Contains(s, sub) }
